@@ -130,6 +130,7 @@ CONSTANTS
   C = %d
   CountFirst = %s
   EarlyAccept = FALSE
+  DialAnyOrder = TRUE
 %s
 CHECK_DEADLOCK FALSE
 """
@@ -164,7 +165,7 @@ def c19(ctx):
     for n, c, num in gens:
         g = ctx.tlc("MeshGen", "Mesh_gen.cfg", mode="sim", workers=1, sim="num=%d" % num, depth=2000,
                     name="mesh-gen-%d-%d" % (n, c), timeout=1500,
-                    cfg_text=MESH_CFG % ("GenSpec", n, c, "FALSE", "CONSTRAINT Emit"))
+                    cfg_text=(MESH_CFG % ("GenSpec", n, c, "FALSE", "CONSTRAINT Emit")).replace("DialAnyOrder = TRUE", "DialAnyOrder = FALSE"))
         if g["status"] != "ok" or not g["cases"]:
             raise Broken("MeshGen produced no behaviours: %s\n%s" % (g["status"], g["out"][-2000:]))
         allcases += g["cases"]
